@@ -1,9 +1,9 @@
 package main
 
 import (
-	"regexp"
 	"fmt"
 	"go/types"
+	"regexp"
 	"sort"
 	"strings"
 
@@ -753,28 +753,61 @@ func (r *Run) ArgIs(fnName, match string, i int, want []string, why string) {
 		return
 	}
 	for _, cs := range sites {
-		args := cs.Path.Args
-		if cs.Path.Idx == 1 {
-			args = args[1:]
-		}
-		if i >= len(args) {
-			r.viol("K4-provenance", fnName, construct, "call has fewer arguments than expected", why, cs.File, cs.Line)
-			return
-		}
-		got := args[i].String()
-		ok := false
-		for _, w := range want {
-			if got == w {
-				ok = true
+		cpaths := []*Path{cs.Path}
+		if !calleeMatches1(cs, match) {
+			// the call lives in a helper that is new relative to the reviewed tree: its arguments,
+			// with the helper's parameters replaced by what the caller passes
+			if in := innerCallPaths(cs, match); len(in) > 0 {
+				cpaths = in
 			}
 		}
-		if !ok {
-			r.viol("K4-provenance", fnName, construct, fmt.Sprintf("argument %d of %s at %s:%d is `%s`, expected `%s`", i, match, cs.File, cs.Line, got, strings.Join(want, "` or `")), why, cs.File, cs.Line)
-			return
+		for _, cp := range cpaths {
+			args := cp.Args
+			if cp.Idx == 1 {
+				args = args[1:]
+			}
+			if i >= len(args) {
+				r.viol("K4-provenance", fnName, construct, "call has fewer arguments than expected", why, cs.File, cs.Line)
+				return
+			}
+			got := args[i].String()
+			ok := false
+			for _, w := range want {
+				if got == w {
+					ok = true
+				}
+			}
+			if !ok {
+				r.viol("K4-provenance", fnName, construct, fmt.Sprintf("argument %d of %s at %s:%d is `%s`, expected `%s`", i, match, cs.File, cs.Line, got, strings.Join(want, "` or `")), why, cs.File, cs.Line)
+				return
+			}
 		}
 	}
 	r.NCalls += len(sites)
 	r.pass("K4-provenance", fnName, construct, fmt.Sprintf("%d call site(s)", len(sites)), why, sites[0].File, sites[0].Line)
+}
+
+// innerCallPaths: for a call of a new helper that stands for the calls it makes, the matching
+// inner calls expressed in the caller's terms.
+func innerCallPaths(cs *CallSite, match string) []*Path {
+	if knownFuncs == nil || theProg == nil || cs.Instr == nil {
+		return nil
+	}
+	h := cs.Instr.Common().StaticCallee()
+	if h == nil || h.Blocks == nil {
+		return nil
+	}
+	if n := theProg.FuncName(h); n == "" || knownFuncs[n] {
+		return nil
+	}
+	hasRecv := h.Signature.Recv() != nil
+	var out []*Path
+	for _, hc := range theProg.Calls(h, false) {
+		if calleeMatches1(hc, match) {
+			out = append(out, hc.Path.Subst(cs.Path.Args, hasRecv))
+		}
+	}
+	return out
 }
 
 // ---------------------------------------------------------------------------------------------
